@@ -317,7 +317,7 @@ def skeleton_check(ctx, pid, module, theorems, extra=None, rule="", assumptions=
     return conclude(ctx, broken, trusted=TRUST_COMMON + ["translator of the pipeline functions into the Stmt skeleton (harness/extract_pipeline.go); statements it cannot read become `opaque` and fail theorem no_opaque"])
 
 
-C11_THEOREMS = ["Acv.C11.no_opaque", "Acv.C11.other_calls_known", "Acv.C11.events_paired", "Acv.C11.events_prefix_bracketed",
+C11_THEOREMS = ["Acv.C11.no_opaque", "Acv.C11.emit_is_blocking_send", "Acv.C11.close_is_plain_close", "Acv.C11.other_calls_known", "Acv.C11.events_paired", "Acv.C11.events_prefix_bracketed",
                 "Acv.C11.closed_exactly_once", "Acv.C11.compile_profile_close", "Acv.C11.compile_then_validate_close",
                 "Acv.C11.milestones_one_per_completed_stage", "Acv.C11.milestone_cases_complete", "Acv.C11.assignment_runs_explored"]
 
